@@ -96,6 +96,18 @@ impl Probe for StorageMonitor {
         let mut h = hist.to_vec();
         h.push(op.clone());
         monitor(sc, &h, Some(pre), post, cx);
+        // whatever appeared in the target's storage during a meld is in the list the meld REPORTS
+        if let (Op::Meld(r, _) | Op::Sync(r, _), OpOut::Ok(text)) = (op, _out) {
+            let listed = text.strip_prefix("melded[").and_then(|t| t.strip_suffix(']')).unwrap_or(text);
+            let reported: std::collections::BTreeSet<String> = listed.split(',').filter(|x| !x.is_empty()).map(|x| x.to_string()).collect();
+            let (before, after) = (pre.reps[*r].store.snapshot(), post.reps[*r].store.snapshot());
+            let appeared: std::collections::BTreeSet<String> = after.keys().filter(|k| !before.contains_key(*k)).cloned().collect();
+            cx.count("meld_report_checks");
+            // (items melded earlier but not refreshed yet are offered - and reported - again: only the inclusion holds)
+            if !appeared.is_subset(&reported) {
+                cx.violation("C11", "C11:meld-report-differs-from-what-was-copied", sc, &h, json!({"replica": r, "reported": reported, "appeared_in_storage": appeared}));
+            }
+        }
         let d: Vec<String> = post.reps.iter().map(|r| store_digest(&r.store.snapshot())).collect();
         cx.outcome(d.join("|"));
     }
